@@ -94,20 +94,22 @@ pub struct Inv {
     used_wrappers: Vec<(usize, usize, u64)>, // (client, w, salt)
     rumor_ids: HashMap<EventId, usize>,
     msg_seq: u64,
+    /// C03: every application message ever sent: (content token, event index)
+    sent: Vec<(u64, usize)>,
 }
 
 impl Inv {
-    fn new(backend: &str) -> Self {
+    fn new(backend: &str, n: usize) -> Self {
         let mut w = World::new();
-        for i in 0..4 {
+        for i in 0..n {
             let be = if i == 1 { backend } else { "mem" };
             w.exec(&["client", &i.to_string(), be, "5"]);
         }
-        for i in 0..4 {
+        for i in 0..n {
             w.exec(&["kp", &i.to_string()]);
             w.exec(&["kp", &i.to_string()]);
         }
-        Inv { w, groups: vec![], welcomes: vec![], used_wrappers: vec![], rumor_ids: HashMap::new(), msg_seq: 0 }
+        Inv { w, groups: vec![], welcomes: vec![], used_wrappers: vec![], rumor_ids: HashMap::new(), msg_seq: 0, sent: vec![] }
     }
 
     fn gnum(&mut self, g: &GroupId) -> usize {
@@ -147,6 +149,14 @@ impl Inv {
                 _ => None,
             })
         })
+    }
+
+    /// indices of the clients that are members of g in client i's MLS state
+    fn members_in(&mut self, i: usize, g: usize) -> String {
+        let gid = self.groups[g].clone();
+        let pks: Vec<PublicKey> = self.w.clients.iter().map(|c| c.keys.public_key()).collect();
+        let v: BTreeSet<usize> = self.with(i, |_, mdk| with_mdk!(mdk, |m| m.get_members(&gid).map(|s| s.iter().filter_map(|p| pks.iter().position(|x| x == p)).collect()).unwrap_or_default()));
+        format!("in=[{}]", v.iter().map(|x| x.to_string()).collect::<Vec<_>>().join(","))
     }
 
     fn push_welcome(&mut self, rumor: UnsignedEvent) -> usize {
@@ -293,7 +303,7 @@ impl Inv {
         // references to welcomes / groups / events that do not exist (an earlier step failed)
         let bad = match t[0] {
             "process" | "accept" | "decline" => u(t[2]) as usize >= self.welcomes.len(),
-            "invite" | "commit" | "rename" | "remove" | "probe" => u(t[2]) as usize >= self.groups.len(),
+            "invite" | "commit" | "rename" | "remove" | "probe" | "send" | "rotate" => u(t[2]) as usize >= self.groups.len(),
             "forge" => u(t[2]) as usize >= self.groups.len() || u(t[4]) as usize >= self.groups.len(),
             "deliver" => u(t[2]) as usize >= self.w.events.len(),
             _ => false,
@@ -315,12 +325,13 @@ impl Inv {
                         let g = self.gnum(&res.group.mls_group_id);
                         let ws: Vec<String> = res.welcome_rumors.into_iter().map(|r| self.push_welcome(r).to_string()).collect();
                         let mv = self.mls_view(i, g);
-                        format!("ok g={g} w={} {}", ws.join(","), mv.map(|(e, t, m)| format!("epoch={e} tok={t} members={m}")).unwrap_or_default())
+                        let inn = self.members_in(i, g);
+                        format!("ok g={g} w={} {} {inn}", ws.join(","), mv.map(|(e, t, m)| format!("epoch={e} tok={t} members={m}")).unwrap_or_default())
                     }
                     Err(e) => err_kind(&e),
                 }
             }
-            "invite" | "commit" | "rename" | "remove" => {
+            "invite" | "commit" | "rename" | "remove" | "rotate" => {
                 let i = u(t[1]) as usize;
                 let g = u(t[2]) as usize;
                 let gid = self.groups[g].clone();
@@ -333,6 +344,11 @@ impl Inv {
                             "invite" => m.add_members(&gid, &kps),
                             "commit" => m.self_update(&gid),
                             "rename" => m.update_group_data(&gid, NostrGroupDataUpdate::new().name(name)),
+                            "rotate" => {
+                                let mut b = [0x5Au8; 32];
+                                b[24..].copy_from_slice(&u(t[3]).to_be_bytes());
+                                m.update_group_data(&gid, NostrGroupDataUpdate::new().nostr_group_id(b))
+                            }
                             _ => m.remove_members(&gid, &pks),
                         };
                         match r {
@@ -346,7 +362,8 @@ impl Inv {
                         let ev = self.push_event(res.evolution_event);
                         let ws: Vec<String> = res.welcome_rumors.unwrap_or_default().into_iter().map(|r| self.push_welcome(r).to_string()).collect();
                         let mv = self.mls_view(i, g);
-                        format!("ok ev={ev} w={} {}", if ws.is_empty() { "-".into() } else { ws.join(",") }, mv.map(|(e, t, m)| format!("epoch={e} tok={t} members={m}")).unwrap_or_default())
+                        let inn = self.members_in(i, g);
+                        format!("ok ev={ev} w={} {} {inn}", if ws.is_empty() { "-".into() } else { ws.join(",") }, mv.map(|(e, t, m)| format!("epoch={e} tok={t} members={m}")).unwrap_or_default())
                     }
                     Err(e) => err_kind(&e),
                 }
@@ -460,10 +477,114 @@ impl Inv {
                 match ev {
                     Err(e) => format!("sender-{}", err_kind(&e)),
                     Ok(ev) => {
-                        self.push_event(ev.clone());
+                        let n = self.push_event(ev.clone());
+                        self.sent.push((self.msg_seq, n));
                         self.with(j, |_, mdk| with_mdk!(mdk, |m| result_kind(m.process_message(&ev))))
                     }
                 }
+            }
+            "send" => {
+                // send <i> <g>: an application message by client i; prints the members of the sender's state
+                let i = u(t[1]) as usize;
+                let g = u(t[2]) as usize;
+                let gid = self.groups[g].clone();
+                let pk = self.w.clients[i].keys.public_key();
+                self.msg_seq += 1;
+                let seq = self.msg_seq;
+                let mut rumor = EventBuilder::new(Kind::Custom(9), format!("probe{seq}")).build(pk);
+                rumor.ensure_id();
+                let pks: Vec<PublicKey> = self.w.clients.iter().map(|c| c.keys.public_key()).collect();
+                let r = self.with(i, |_, mdk| {
+                    with_mdk!(mdk, |m| {
+                        m.create_message(&gid, rumor).map(|ev| {
+                            let members: BTreeSet<usize> = m.get_members(&gid).map(|s| s.iter().filter_map(|p| pks.iter().position(|x| x == p)).collect()).unwrap_or_default();
+                            (ev, members)
+                        })
+                    })
+                });
+                match r {
+                    Err(e) => err_kind(&e),
+                    Ok((ev, members)) => {
+                        let n = self.push_event(ev);
+                        self.sent.push((seq, n));
+                        let mv = self.mls_view(i, g);
+                        format!(
+                            "ok ev={n} mid={seq} {} in=[{}]",
+                            mv.map(|(e, t, _)| format!("epoch={e} tok={t}")).unwrap_or_default(),
+                            members.iter().map(|x| x.to_string()).collect::<Vec<_>>().join(",")
+                        )
+                    }
+                }
+            }
+            "flood" => {
+                // flood <j> <seed> <rounds>: client j is fed EVERY wrapper event and EVERY welcome rumor ever
+                // published, in a seeded random order, `rounds` times (welcomes are processed, never accepted)
+                let j = u(t[1]) as usize;
+                let mut x = u(t[2]).wrapping_mul(0x9E37_79B9_7F4A_7C15) | 1;
+                let rounds = u(t[3]);
+                let mut counts: BTreeSet<String> = BTreeSet::new();
+                let (mut napp, mut ncommit, mut nwel, mut total) = (0, 0, 0, 0);
+                let mut seq: Vec<String> = Vec::new();
+                for round in 0..rounds {
+                    let mut items: Vec<(bool, usize)> = (0..self.w.events.len()).map(|e| (true, e)).chain((0..self.welcomes.len()).map(|w| (false, w))).collect();
+                    for k in (1..items.len()).rev() {
+                        x ^= x << 13;
+                        x ^= x >> 7;
+                        x ^= x << 17;
+                        items.swap(k, (x % (k as u64 + 1)) as usize);
+                    }
+                    for (is_ev, n) in items {
+                        total += 1;
+                        seq.push(format!("{}{n}", if is_ev { "e" } else { "w" }));
+                        if is_ev {
+                            let ev = self.w.events[n].clone();
+                            let r = self.with(j, |_, mdk| with_mdk!(mdk, |m| result_kind(m.process_message(&ev))));
+                            if r == "app" {
+                                napp += 1
+                            } else if r == "commit" {
+                                ncommit += 1
+                            }
+                            counts.insert(r);
+                        } else {
+                            let rumor = self.welcomes[n].rumor.clone();
+                            let wrapper = wrapper_id(n, 900 + round);
+                            if !self.used_wrappers.contains(&(j, n, 900 + round)) {
+                                self.used_wrappers.push((j, n, 900 + round));
+                            }
+                            let ok = self.with(j, |_, mdk| with_mdk!(mdk, |m| m.process_welcome(&wrapper, &rumor).is_ok()));
+                            if ok {
+                                nwel += 1;
+                                if let Some(id) = rumor.id {
+                                    if let Some(g) = self.with(j, |_, mdk| with_mdk!(mdk, |m| m.get_welcome(&id).ok().flatten().map(|w| w.mls_group_id))) {
+                                        self.gnum(&g);
+                                    }
+                                }
+                            }
+                        }
+                    }
+                }
+                format!("ok fed={total} app={napp} commit={ncommit} welcomes={nwel} kinds={} seq={}", counts.into_iter().collect::<Vec<_>>().join("+"), if seq.is_empty() { "-".into() } else { seq.join(",") })
+            }
+            "audit" => {
+                // audit <j>: the content tokens of every message row client j holds, per group
+                let j = u(t[1]) as usize;
+                let groups = self.groups.clone();
+                let parts: Vec<String> = self.with(j, |_, mdk| {
+                    with_mdk!(mdk, |m| {
+                        groups
+                            .iter()
+                            .enumerate()
+                            .filter_map(|(g, gid)| {
+                                let l = m.get_messages(gid, None).ok()?;
+                                let mut toks: Vec<u64> = l.iter().filter_map(|x| x.content.strip_prefix("probe").and_then(|n| n.parse().ok())).collect();
+                                toks.sort();
+                                let other = l.len() - toks.len();
+                                Some(format!("M{g}:[{}]{}", toks.iter().map(|x| x.to_string()).collect::<Vec<_>>().join(","), if other > 0 { format!("+{other}") } else { String::new() }))
+                            })
+                            .collect()
+                    })
+                });
+                format!("ok {}", if parts.is_empty() { "-".into() } else { parts.join(" ") })
             }
             "view" => "ok".into(),
             _ => "bad-op".into(),
@@ -501,7 +622,7 @@ pub fn main(_args: &[String]) -> i32 {
             continue;
         }
         if t[0] == "setup" {
-            inv = Some(Inv::new(t.get(1).copied().unwrap_or("mem")));
+            inv = Some(Inv::new(t.get(1).copied().unwrap_or("mem"), t.get(2).and_then(|x| x.parse().ok()).unwrap_or(4)));
             writeln!(out, "ok | -").unwrap();
             out.flush().unwrap();
             continue;
